@@ -308,6 +308,21 @@ Theorem C13_listing_ignores_strays :
 Proof. exact listing_ignores_strays. Qed.
 Print Assumptions C13_listing_ignores_strays.
 
+(* After any history from the empty buckets (uploads, withdrawals, re-uploads,
+   stray directories, bucket directories moved behind symbolic links
+   [OpRelocate], merges, charts) the listing a merge works from is exactly the
+   objects currently stored under the day's prefix, each with its current
+   content: what can be written and read back by name is also listed. *)
+Theorem C13_listing_is_what_was_written :
+  forall (R : Type) (enc : R -> bytes) (dec : bytes -> option R) (proj : R -> report)
+         (ord : bucket bytes -> bucket bytes), (forall l, Permutation (ord l) l) ->
+  forall pos it lts ltg cfg ops date n d,
+  let st := fst (run_ops R enc dec proj ord pos it lts ltg cfg ws_empty ops) in
+  In (n, d) (walk (day_entries ord pos st) date) <->
+  b_get (ws_upload st) n = Some d /\ has_prefix n date = true.
+Proof. exact listing_is_what_was_written. Qed.
+Print Assumptions C13_listing_is_what_was_written.
+
 (* The range of /chart/ and /copy/ is every day from start to end inclusive,
    across month and year boundaries and over any number of years (days are
    day numbers; Lib/Calendar renders them). *)
